@@ -79,18 +79,21 @@ Definition prepend {A} (c : list A) (r : list (list A)) : list (list A) :=
 Definition clipshift (a b : Z) (n : note) : note :=
   note_with_times n (n_start n - a) (Z.min (n_end n) b - a).
 
-Fixpoint note_walk (a : Z) (rest : list Z) : list note -> list (list note) :=
+Fixpoint ge_walk {A} (time : A -> Z) (place : Z -> Z -> A -> A) (a : Z) (rest : list Z)
+  : list A -> list (list A) :=
   match rest with
   | [] => fun _ => []                                    (* idx == len - 1: break *)
   | b :: rest' =>
-      fix inner (l : list note) : list (list note) :=
+      fix inner (l : list A) : list (list A) :=
         match l with
         | [] => [] :: repeat [] (length rest')           (* later containers stay empty *)
         | n :: l' =>
-            if n_start n >=? b then [] :: note_walk b rest' l          (* idx += 1 *)
-            else cons_hd (clipshift a b n) (inner l')
+            if time n >=? b then [] :: ge_walk time place b rest' l        (* idx += 1 *)
+            else cons_hd (place a b n) (inner l')
         end
   end.
+
+Definition note_walk := ge_walk n_start clipshift.
 
 (** [if notes[-1].end_time > total_time: total_time = notes[-1].end_time], from 0.0 *)
 Definition piece_total (ns : list note) : Z :=
@@ -100,18 +103,8 @@ Definition text_with_time (t : text) (x : Z) : text :=
   mkText x (tx_qstep t) (tx_text t) (tx_type t).
 
 (** * BEAT pass (lines 261-278): the same walk, only the time is shifted *)
-Fixpoint beat_walk (a : Z) (rest : list Z) : list text -> list (list text) :=
-  match rest with
-  | [] => fun _ => []
-  | b :: rest' =>
-      fix inner (l : list text) : list (list text) :=
-        match l with
-        | [] => [] :: repeat [] (length rest')
-        | e :: l' =>
-            if tx_time e >=? b then [] :: beat_walk b rest' l
-            else cons_hd (text_with_time e (tx_time e - a)) (inner l')
-        end
-  end.
+Definition beat_walk :=
+  ge_walk tx_time (fun a _ e => text_with_time e (tx_time e - a)).
 
 (** * State-event passes (lines 227-256)
 
